@@ -12,7 +12,10 @@ TARGETS = [
     ("C11", "src/term.rs", ["free_variables"]),
     ("C02", "src/evaluator.rs", ["is_value", "step", "evaluate"]),
     ("C07", "src/parser.rs", ["reassociate_applications", "reassociate_products_and_quotients", "reassociate_sums_and_differences"]),
-    ("C08", "src/parser.rs", ["resolve_variables", "collect_definitions", "parse"]),
+    ("C08", "src/parser.rs", ["resolve_variables", "collect_definitions", "parse", "check_definitions", "check_definition"]),
+    ("C06", "src/normalizer.rs", ["normalize_weak_head"]),
+    ("C06", "src/equality.rs", ["syntactically_equal"]),
+    ("C06", "src/unifier.rs", ["unify"]),
 ]
 RULES = [
     ("plus1-drop", r" \+ 1\b", ""), ("plus1-2", r" \+ 1\b", " + 2"), ("minus1-drop", r" - 1\b", ""),
@@ -30,6 +33,10 @@ RULES = [
     ("skip1-0", r"\.skip\(1\)", ".skip(0)"), ("index-plus", r"\bindex_plus_one\b", "index"),
     ("depth-newdepth", r"\bnew_depth\b", "depth"), ("depth-plus", r"\bdepth,$", "depth + 1,"), ("ctx-len-0", r"\bcontext\.len\(\)", "0"),
     ("ne-eq-ph", r" != PLACEHOLDER_VARIABLE", " == PLACEHOLDER_VARIABLE"), ("domain-body", r"\bdomain,$", "body,"),
+    ("iidx-plus", r"\bi_index_plus_one\b", "i_index"), ("iidx-minus", r"\bi_index,$", "i_index_plus_one,"), ("skip-i", r"\.skip\(i\)", ".skip(i + 1)"),
+    ("offset-drop", r" - offset\b", ""), ("and-or", r" && ", " || "), ("t11-t21", r"\bterm11\b", "term21"), ("t12-t22", r"\bterm12\b", "term22"),
+    ("body1-body2", r"\bbody1\b", "body2"), ("implicit-drop", r"implicit1 == implicit2 && ", ""), ("push-some", r"\.push\(None\)", ".push(Some((Rc::new(term1.clone()), 1)))"),
+    ("len-eq-drop", r"definitions1\.len\(\) == definitions2\.len\(\)$", "true"),
     ("insert-drop", r"^(\s*)(\w+)\.insert\((.*), depth( \+ i)?\);$", r"\1let _ = (\3, depth);"), ("is-empty-not", r"if errors\.is_empty\(\)", "if !errors.is_empty()"),
 ]
 
@@ -107,7 +114,8 @@ def main():
         res = list(ex.map(run, muts))
     s = {k: len([r for r in res if r["exit"] == k]) for k in (0, 1, 2)}
     print({"survived (exit 0)": s[0], "killed (exit 1)": s[1], "undecided (exit 2)": s[2]})
-    json.dump({"summary": s, "mutants": res}, open(os.path.join(V, "tools/mutants_gen_result.json"), "w"), indent=1)
+    out = "tools/mutants_gen_result.json" if not props else "tools/mutants_gen_result_" + "_".join(props) + ".json"
+    json.dump({"summary": s, "mutants": res}, open(os.path.join(V, out), "w"), indent=1)
 
 
 if __name__ == "__main__":
